@@ -1,10 +1,13 @@
 (* Extraction of the executable model for the correspondence check. ExtrOcamlBasic only: bool, option, list, prod,
    unit, sumbool map to OCaml's; nat, N, Z, positive, string, ascii stay Coq data types. No Extract Constant. *)
 From Coq Require Import Extraction ExtrOcamlBasic.
-Require Import Codec CRC Frame Reader Rijndael Cipher Wire Vocab.
+Require Import Codec CRC Frame Reader Rijndael Cipher Wire Vocab Builder BuilderInst Config Validate Client Session.
 Extraction "model.ml"
   model_write model_plain model_read_step model_feed rinit key_schedule key_pad iv0 c_enc c_dec crc32
   decode_frame dec_items enc_items
   name_of_tag is_a_tag tag_of_name tag_datatype is_request is_response is_secret marshal_tag unmarshal_tag
   unmarshal_tag_num tag_string name_of_dt is_a_datatype dt_of_name marshal_dt unmarshal_dt dt_string dt_length
-  model_kind.
+  model_kind
+  b_create_request b_create_requests
+  Config.check Config.key_of
+  session c_valid c_auth_req c_auth_ok c_verdict validb.
